@@ -43,6 +43,12 @@ fn nt_c10(_p: &Plan, o: &RunOut) -> bool {
 fn nt_c11(p: &Plan, o: &RunOut) -> bool {
     o.probes.api_calls >= 1 && p.api.iter().any(|a| a.at_us > 500_000) && o.probes.sealed_frames >= 50
 }
+fn nt_c16(p: &Plan, o: &RunOut) -> bool {
+    match &p.mode {
+        crate::plan::Mode::Builder { calls, .. } => calls.len() >= 3,
+        _ => o.probes.extra.get("misuse_calls").copied().unwrap_or(0) + o.probes.extra.get("misuse_advance_missing_input").copied().unwrap_or(0) >= 2,
+    }
+}
 fn nt_c17(p: &Plan, o: &RunOut) -> bool {
     o.probes.rollbacks >= 1 && (p.nodes.len() >= 3 || p.cfg.num_players >= 3)
 }
@@ -213,6 +219,18 @@ PropSpec {
     required_probes: &["synctest_runs_with_detection", "synctest_invalid_configs_tried", "rollbacks"],
     assumptions: &["the injected fault is a game step whose result differs between simulations of the same frame (fresh counter mixed into the state)", "no network, no clock: the technique degenerates to seeded workload + fault + oracle + replay"],
     twin: None,
+},
+PropSpec {
+    id: "C16",
+    level: "exploration",
+    quick_runs: 60_000,
+    thorough_runs: 1_500_000,
+    default_seed: 1616,
+    rule: "three quarters: seeded sequences of 1-12 SessionBuilder calls (60 % coherent configurations with up to 4 perturbing calls inserted and sometimes one removed, 40 % uniformly random) over small domains (num_players 0-4, handles 0-6, 3 addresses, window/delay 0-16, fps {0,1,60}, desync {Off, On 0, On 1, On 5}, check distance 0-17, max_frames_behind {0,1,10,59,60}, catchup {0,1,2,70}) ended by start_p2p / start_synctest / start_spectator; each call's Ok/InvalidRequest is compared with a reference predicate written from the rustdoc, and every accepted configuration is run (P2P against matching simulated peers and spectators for 120 ticks with all oracles, SyncTest for 60 frames, spectator alone for 60 polls). One quarter: runs of C01's space with 2-12 misuse calls (input for a non-local handle, advance_frame with a local input missing, disconnect of a local/unknown handle, delay change or stats for the wrong player type) that must return the documented error, with a twin run without them (identical request lists and events). Non-trivial = a builder sequence with >= 3 calls, or a misuse run in which >= 2 misuse calls executed; distinct = distinct hash of (call sequence, executed schedule)",
+    nontrivial: nt_c16,
+    required_probes: &["builder_sequences", "builder_calls_rejected_as_documented", "builder_starts_rejected_as_documented", "builder_accepted_and_run", "builder_spectator_started", "misuse_calls", "misuse_advance_missing_input", "twin_runs"],
+    assumptions: &["the reference validity predicate is written from the rustdoc of SessionBuilder", "input delay and prediction window stay within 0..=16 (a delay beyond the 128-slot input ring is outside the claim)", "an accepted configuration that registers one address both as remote and as spectator is not run (it cannot be mapped onto simulated nodes)"],
+    twin: Some(crate::twins::c16_twin),
 },
 PropSpec {
     id: "C17",
